@@ -10,7 +10,8 @@ the roots of single-chunk entries — those are data chunks as well).
 Transcribed case by case: `updateChunkPyramid`, `putChunk`, `delChunk`, `delRootCid`,
 `getPyramid` (position = first occurrence, number = occurrences), `getPyramidHash`,
 `getUnRepeatChunk`, `getCidSort` (0 for a cid that is not a data chunk) and `getCidSortOK` (the
-membership test added by the C17 `fix:` commit).  Go map iteration order is irrelevant for every
+membership test added by the C17 `fix:` commit); `getUnRepeatChunk` / `delRootCid` include the
+registration test added by the C16 `fix:` commit.  Go map iteration order is irrelevant for every
 function here (sets / commutative updates); lists are kept in first-occurrence order.
 Core Lean only.
 -/
@@ -89,15 +90,21 @@ def updateChunkPyramid (s : State) (f : FileS) : State :=
 def ensure (s : State) (f : FileS) : State :=
   if s.registered f.root then s else updateChunkPyramid s f
 
-/-- `delRootCid(root, pyr, hashs)` -/
+/-- `delRootCid(root, pyr, hashs)`; after the C16 `fix:` a root that is not registered releases
+    nothing (its chunks' counts belong to other files) -/
 def delRootCid (s : State) (f : FileS) : State :=
-  let m1 := f.hashOnly.foldl delChunk s.chunk
-  let m2 := f.cids.foldl delChunk m1
-  { chunk := m2, hashData := s.hashData.filter (fun e => e.1 != f.root) }
+  if !s.registered f.root then s
+  else
+    let m1 := f.hashOnly.foldl delChunk s.chunk
+    let m2 := f.cids.foldl delChunk m1
+    { chunk := m2, hashData := s.hashData.filter (fun e => e.1 != f.root) }
+
+/-- references the file itself holds on each of its chunks: 1 if registered, else 0 (C16 `fix:`) -/
+def own (s : State) (f : FileS) : Nat := if s.registered f.root then 1 else 0
 
 /-- `getUnRepeatChunk` = `GetChunkPyramid`: chunks no other registered file is known to use -/
 def getUnRepeatChunk (s : State) (f : FileS) : List (Addr × Nat) :=
-  ((f.cids.filter (fun c => refc s.chunk c ≤ 1)).map (fun c => (c, f.number c))) ++
-  ((f.hashOnly.filter (fun h => refc s.chunk h ≤ 1)).map (fun h => (h, 1)))
+  ((f.cids.filter (fun c => refc s.chunk c ≤ own s f)).map (fun c => (c, f.number c))) ++
+  ((f.hashOnly.filter (fun h => refc s.chunk h ≤ own s f)).map (fun h => (h, 1)))
 
 end Aurora.ChunkPyramid
